@@ -754,6 +754,31 @@ func ROffTable(c *core.Ctx) {
 	if n == 0 {
 		c.Anchor("compat functions answering byte indexes that decode through a (runes, offsets) helper")
 	}
+	// the byte width of a rune that came from a reader is what the reader said it was
+	nr := 0
+	for _, fn := range compatFuncs(p) {
+		name := core.SSAName(fn)
+		for _, b := range fn.Blocks {
+			for _, ins := range b.Instrs {
+				call, ok := ins.(*ssa.Call)
+				if !ok || !call.Call.IsInvoke() || call.Call.Method == nil || call.Call.Method.Name() != "ReadRune" {
+					continue
+				}
+				nr++
+				c.Visit(name)
+				used := false
+				for _, r := range core.Referrers(call) {
+					if ex, ok := r.(*ssa.Extract); ok && ex.Index == 1 && len(core.Referrers(ex)) > 0 {
+						used = true
+					}
+				}
+				c.Check(used, fmt.Sprintf("%s / the size reported by ReadRune call #%d is used", name, nr), call.Pos(), "the size result of ReadRune is discarded: byte positions of reader input are then recomputed from the runes (utf8.RuneLen), which is wrong for every rune the reader delivered from bytes that are not its UTF-8 encoding (an invalid byte arrives as U+FFFD with size 1)")
+			}
+		}
+	}
+	if nr == 0 {
+		c.Anchor("ReadRune calls in package compat")
+	}
 }
 
 // ---------------------------------------------------------------------------
